@@ -56,6 +56,8 @@ Apply(e, m) ==
          [] e.op = "ldget" -> \* loader-backed Get: a hit, or a miss that returns a loaded value (installed at a second point)
                             IF cur # NIL THEN [m |-> m, rv |-> cur, rok |-> 1, ok |-> TRUE]
                             ELSE [m |-> m, rv |-> e.rv, rok |-> 1, ok |-> e.hit = 0]
+         [] e.op = "clr" -> \* Clear of the table (C15): every key is removed at one instant
+                            [m |-> [k \in DOMAIN m |-> NIL], rv |-> NIL, rok |-> 0, ok |-> TRUE]
          [] OTHER -> [m |-> m, rv |-> NIL, rok |-> 0, ok |-> TRUE]
 
 More == l <= Len(Trace)
@@ -77,7 +79,7 @@ Lin(c) == /\ More /\ Trace[l].t # "call"
              IN /\ a.ok
                 /\ map' = a.m
                 /\ pend' = Dirty([pend EXCEPT ![c].lin = TRUE, ![c].rv = a.rv, ![c].rok = a.rok, ![c].miss = (map[Trace[pend[c].ri].k] = NIL)],
-                                 IF a.m # map THEN {Trace[pend[c].ri].k} ELSE {}, c)
+                                 IF a.m # map THEN (IF Trace[pend[c].ri].op = "clr" THEN KeysT ELSE {Trace[pend[c].ri].k}) ELSE {}, c)
           /\ UNCHANGED l
 
 \* second linearisation point of a loader-backed Get that missed: the loaded value is installed unless it was superseded
